@@ -1,8 +1,15 @@
 import CaresLemmas.ArrRefine
+import CaresLemmas.HTableOps
+import CaresLemmas.HTableHash
+import CaresLemmas.BufOps
+import CaresLemmas.BufSplit
+import CaresLemmas.BufPatch
+import CaresLemmas.SListFind
 /-!
 # C19 — internal containers behave as their abstract data types
 
-Property theorems only (helper lemmas live in `CaresLemmas`).  Part 1: `ares_array`.
+Property theorems only (helper lemmas live in `CaresLemmas`).  Part 1: `ares_array`; part 2: `ares_htable`
+(and its typed wrappers); part 3: `ares_buf`; part 4: `ares_slist`.
 
 The array model (`Cares.Dsa.Arr`) follows `ares_array.c` field by field (`mem/cnt/off`, the bounds
 checks of `ares_array_move`, the growth policy).  The theorems say: for every reachable array the
@@ -11,7 +18,7 @@ insertion at a legal index never fails once memory is available ("stays usable a
 pattern").
 -/
 namespace Cares.C19
-open Cares.Dsa Cares.Dsa.Arr
+open Cares Cares.Dsa Cares.Dsa.Arr
 
 /-- insertion at any legal index refines `List.insertIdx`, keeps the invariant, and cannot fail when
     allocation succeeds -/
@@ -214,5 +221,610 @@ example : Arr.empty.Inv := ⟨by decide, by decide⟩
 example :
     let ops := [ArrOp.ins 0 1, .ins 1 2, .ins 2 3, .ins 3 4, .rm 0, .rm 0, .rm 0, .rm 0, .ins 0 9]
     (ops.foldl (fun s op => (arrStep s op).2) Arr.empty).abs = [9] := by decide
+
+/-! ## Part 2 — `ares_htable` and the typed hash tables
+
+The model (`Cares.Dsa.HTable`) follows `ares_htable.c`: buckets that are NULL or an llist, `size`,
+`num_keys`, `num_collisions`, growth at `ARES__HTABLE_EXPAND_PERCENT` with the pre-allocation of
+`ares_htable_expand()`.  The hash function and key equality are parameters (`HOps`), so every theorem holds
+for all six typed tables and for every seed; `Lawful` says what `ares_htable_create()` expects of them.
+-/
+section HTable
+open Cares.Generated Cares.Dsa.HTable
+variable {K V : Type}
+
+/-- side conditions on the constants regenerated from `ares_htable.c` on every run: the minimum size is
+    positive, repeated doubling of the minimum hits the maximum exactly (so `size == MAX` stops the growth),
+    and the growth threshold of the smallest table is at least one key -/
+theorem ht_consts_ok : ConstsOk :=
+  ⟨by decide, ⟨Nat.log2 (HTABLE_MAX_BUCKETS / HTABLE_MIN_BUCKETS), by decide⟩, by decide⟩
+
+/-- `unsigned int` arithmetic of `htable->size <<= 1` and `size * EXPAND_PERCENT` never wraps (sizes stay
+    ≤ MAX by `Inv.szmax`), the percentage is a percentage, and the sizes are powers of two so that
+    `hash & (size - 1)` is `hash % size` -/
+theorem ht_size_arith_fits :
+    HTABLE_MAX_BUCKETS * 2 < 2 ^ (8 * SIZEOF_UINT) ∧ HTABLE_MAX_BUCKETS * HTABLE_EXPAND_PERCENT < 2 ^ (8 * SIZEOF_UINT) ∧
+      0 < HTABLE_EXPAND_PERCENT ∧ HTABLE_EXPAND_PERCENT < 100 ∧
+      HTABLE_MIN_BUCKETS = 2 ^ Nat.log2 HTABLE_MIN_BUCKETS := by decide
+
+/-- a freshly created table is empty and satisfies the invariant -/
+theorem ht_empty (ops : HOps K) :
+    Inv ops (HTable.empty : HTable K V) ∧ (∀ q, HTable.abs ops (HTable.empty : HTable K V) q = none) ∧
+      (HTable.empty : HTable K V).numKeys = 0 := by
+  have he : entries (HTable.empty : HTable K V) = [] := by
+    unfold entries HTable.empty; exact ents_replicate_none _
+  refine ⟨⟨by simp [HTable.empty], ⟨0, by simp [HTable.empty]⟩, ?_, ?_, ?_, ?_, ?_, ?_⟩, ?_, rfl⟩
+  · obtain ⟨j, hj⟩ := ht_consts_ok.max_pow
+    simp only [HTable.empty]; rw [hj]; exact Nat.le_mul_of_pos_right _ (Nat.two_pow_pos j)
+  · intro i l hi
+    simp only [HTable.empty, List.getElem?_replicate] at hi
+    split at hi <;> simp at hi
+  · rw [he]; exact List.Pairwise.nil
+  · rw [he]; rfl
+  · simp only [HTable.empty]; rw [sum_map_replicate_none bcoll rfl]
+  · left; simp [HTable.empty]
+  · intro q; unfold HTable.abs; rw [he]; rfl
+
+/-- **insert**: with memory available `ares_htable_insert` always succeeds, keeps the invariant, and the
+    table then maps every key equal to `k` to the new node `(k, v)` and every other key to what it mapped to
+    before — across any growth the insert triggers.  The key count goes up exactly when the key was new, and
+    the table doubles exactly when a new key crosses the expand percentage below the maximum size. -/
+theorem ht_insert_refines (ops : HOps K) (hl : Lawful ops) (t : HTable K V) (k : K) (v : V) (o : Oracle)
+    (h : Inv ops t) (ho : o.AllOk) :
+    ∃ t' o', insert ops t k v o = (true, t', o') ∧ o'.AllOk ∧ Inv ops t' ∧
+      (∀ q, HTable.abs ops t' q = if ops.eq q k then some (k, v) else HTable.abs ops t q) ∧
+      t'.numKeys = (if (HTable.abs ops t k).isSome then t.numKeys else t.numKeys + 1) ∧
+      t'.size = (if (HTable.abs ops t k).isNone ∧ t.numKeys + 1 > t.size * HTABLE_EXPAND_PERCENT / 100 ∧
+                    t.size ≠ HTABLE_MAX_BUCKETS then t.size * 2 else t.size) :=
+  insert_spec ht_consts_ok ops hl t k v o h ho
+
+/-- **growth**: `ares_htable_expand` with memory available never fails (in particular the llists
+    pre-allocated from `num_collisions` always suffice), keeps every node and hence every key → value
+    association, keeps the invariant (`num_collisions` is recomputed correctly) and doubles the size. -/
+theorem ht_expand_preserves (ops : HOps K) (hl : Lawful ops) (t : HTable K V) (o : Oracle)
+    (h : Inv ops t) (ho : o.AllOk) :
+    ∃ t' o', expand ops t o = (true, t', o') ∧ Inv ops t' ∧ (∀ q, HTable.abs ops t' q = HTable.abs ops t q) ∧
+      t'.numKeys = t.numKeys ∧ (t.size ≠ HTABLE_MAX_BUCKETS → t'.size = t.size * 2) := by
+  obtain ⟨t', o', e, _, i', p, n, sz⟩ := expand_spec ht_consts_ok ops hl t o h ho
+  refine ⟨t', o', e, i', ?_, n, ?_⟩
+  · intro q; unfold HTable.abs; exact find?_perm ops hl _ _ p i'.uniq q
+  · intro hne; rw [if_neg hne] at sz; exact sz
+
+/-- the "impossible" `goto done` of the move loop is impossible: when at least Σ (len − 1) llists were
+    pre-allocated (which is what `num_collisions` records) the loop moves every bucket -/
+theorem ht_expand_prealloc_suffices (ops : HOps K) (size : Nat) (bs : List (Option (List (K × V)))) (x : XS K V)
+    (hx : XInv ops size x) (hs : 0 < size) (hpre : (bs.map bcoll).sum ≤ x.pre) :
+    (moveAll ops size bs x).2 = none := by
+  obtain ⟨x', e, _, _⟩ := moveAll_spec ops size bs x hx hs hpre
+  rw [e]
+
+/-- **remove** removes exactly the node with that key and reports whether there was one -/
+theorem ht_remove_refines (ops : HOps K) (hl : Lawful ops) (t : HTable K V) (k : K) (h : Inv ops t)
+    (hk : ops.isNull k = false) :
+    Inv ops (remove ops t k).2 ∧ (remove ops t k).1 = (HTable.abs ops t k).isSome ∧
+      (∀ q, HTable.abs ops (remove ops t k).2 q = if ops.eq q k then none else HTable.abs ops t q) ∧
+      (remove ops t k).2.numKeys = (if (HTable.abs ops t k).isSome then t.numKeys - 1 else t.numKeys) := by
+  obtain ⟨a, b, c, d, _⟩ := remove_spec ht_consts_ok ops hl t k h hk
+  exact ⟨a, b, c, d⟩
+
+/-- **get** (a search of one bucket) returns what the association map holds -/
+theorem ht_get_refines (ops : HOps K) (hl : Lawful ops) (t : HTable K V) (k : K) (h : Inv ops t)
+    (hk : ops.isNull k = false) : get ops t k = HTable.abs ops t k :=
+  get_spec ops hl t k h hk
+
+/-- **count** = number of live keys: `num_keys` is the number of nodes, no two nodes have equal keys, and every
+    node is what its key maps to -/
+theorem ht_count_eq_keys (ops : HOps K) (hl : Lawful ops) (t : HTable K V) (h : Inv ops t) :
+    t.numKeys = (entries t).length ∧ (entries t).Pairwise (fun a b => ops.eq a.1 b.1 = false) ∧
+      ∀ e ∈ entries t, HTable.abs ops t e.1 = some e := by
+  refine ⟨h.nkeys, h.uniq, ?_⟩
+  intro e he
+  unfold HTable.abs
+  exact (find?_some_iff ops hl _ h.uniq e.1 e).2 ⟨he, hl.refl _⟩
+
+/-- **collision bookkeeping**: `num_collisions` = Σ over the buckets of (length − 1); and the load stays below
+    the expand percentage until the maximum size is reached -/
+theorem ht_collisions_eq_sum (ops : HOps K) (t : HTable K V) (h : Inv ops t) :
+    t.numCollisions = (t.buckets.map bcoll).sum ∧
+      (t.numKeys ≤ t.size * HTABLE_EXPAND_PERCENT / 100 ∨ t.size = HTABLE_MAX_BUCKETS) ∧
+      (∃ e, t.size = 2 ^ e) := by
+  refine ⟨h.ncoll, h.load, ?_⟩
+  obtain ⟨k, hk⟩ := h.pow
+  refine ⟨Nat.log2 HTABLE_MIN_BUCKETS + k, ?_⟩
+  rw [hk, Nat.pow_add, ← ht_size_arith_fits.2.2.2.2]
+
+/-! ### every reachable table: operation sequences against the trivial map reference -/
+
+/-- the trivial reference: a function from keys to nodes and a counter -/
+structure MapRef (K V : Type) where
+  map : K → Option (K × V)
+  count : Nat
+
+inductive HtOp (K V : Type) where
+  | put (k : K) (v : V) | del (k : K) | get (k : K)
+
+def HtOp.key : HtOp K V → K
+  | .put k _ => k | .del k => k | .get k => k
+
+inductive HtOut (K V : Type) where
+  | done (ok : Bool) | found (e : Option (K × V))
+  deriving DecidableEq
+
+def htStep (ops : HOps K) (t : HTable K V) : HtOp K V → HtOut K V × HTable K V
+  | .put k v => (.done (insert ops t k v Oracle.ok).1, (insert ops t k v Oracle.ok).2.1)
+  | .del k => (.done (remove ops t k).1, (remove ops t k).2)
+  | .get k => (.found (HTable.get ops t k), t)
+
+def refStep (ops : HOps K) (m : MapRef K V) : HtOp K V → HtOut K V × MapRef K V
+  | .put k v => (.done true, { map := fun q => if ops.eq q k then some (k, v) else m.map q,
+                               count := if (m.map k).isSome then m.count else m.count + 1 })
+  | .del k => (.done (m.map k).isSome, { map := fun q => if ops.eq q k then none else m.map q,
+                                         count := if (m.map k).isSome then m.count - 1 else m.count })
+  | .get k => (.found (m.map k), m)
+
+def absRef (ops : HOps K) (t : HTable K V) : MapRef K V := { map := HTable.abs ops t, count := t.numKeys }
+
+def htRun (ops : HOps K) : HTable K V → List (HtOp K V) → List (HtOut K V) × HTable K V
+  | t, [] => ([], t)
+  | t, op :: r => let s := htStep ops t op; let rr := htRun ops s.2 r; (s.1 :: rr.1, rr.2)
+
+def refRun (ops : HOps K) : MapRef K V → List (HtOp K V) → List (HtOut K V) × MapRef K V
+  | m, [] => ([], m)
+  | m, op :: r => let s := refStep ops m op; let rr := refRun ops s.2 r; (s.1 :: rr.1, rr.2)
+
+theorem ht_step_refines (ops : HOps K) (hl : Lawful ops) (t : HTable K V) (op : HtOp K V) (h : Inv ops t)
+    (hnn : ops.isNull op.key = false) :
+    Inv ops (htStep ops t op).2 ∧ (htStep ops t op).1 = (refStep ops (absRef ops t) op).1 ∧
+      absRef ops (htStep ops t op).2 = (refStep ops (absRef ops t) op).2 := by
+  cases op with
+  | put k v =>
+    obtain ⟨t', o', e, _, i', a, n, _⟩ := ht_insert_refines ops hl t k v Oracle.ok h (fun _ => rfl)
+    simp only [htStep, refStep, absRef, e]
+    refine ⟨i', trivial, ?_⟩
+    rw [n]
+    congr 1
+    funext q; exact a q
+  | del k =>
+    obtain ⟨i', b, a, n⟩ := ht_remove_refines ops hl t k h hnn
+    simp only [htStep, refStep, absRef]
+    refine ⟨i', by rw [b], ?_⟩
+    rw [n]
+    congr 1
+    funext q; exact a q
+  | get k =>
+    simp only [htStep, refStep, absRef]
+    exact ⟨h, by rw [ht_get_refines ops hl t k h hnn], trivial⟩
+
+/-
+Full statement (false on the pinned tree for the two pointer-keyed tables, see `ht_null_key_lost`):
+
+  theorem ht_run_refines (ops) (hl : Lawful ops) (l : List (HtOp K V)) :
+      (htRun ops HTable.empty l).1 = (refRun ops (absRef ops HTable.empty) l).1 ∧ …
+
+`ares_htable_get/remove` refuse the NULL key while `ares_htable_insert` stores it (finding F30-C19), so the
+statement is proved for operation sequences that never use the NULL key.
+-/
+/-- **C19 (hash tables)**: under any sequence of put / del / get (never handing in the NULL pointer as a key)
+    every answer equals the answer of the trivial map reference — every live key maps to its latest value
+    across any growth, removed keys are gone — and the key counter equals the reference's count. -/
+theorem ht_run_refines_partial (ops : HOps K) (hl : Lawful ops) (l : List (HtOp K V)) (t : HTable K V)
+    (h : Inv ops t) (hnn : ∀ op ∈ l, ops.isNull op.key = false) :
+    Inv ops (htRun ops t l).2 ∧ (htRun ops t l).1 = (refRun ops (absRef ops t) l).1 ∧
+      absRef ops (htRun ops t l).2 = (refRun ops (absRef ops t) l).2 := by
+  induction l generalizing t with
+  | nil => exact ⟨h, rfl, rfl⟩
+  | cons op r ih =>
+    obtain ⟨i1, o1, a1⟩ := ht_step_refines ops hl t op h (hnn op List.mem_cons_self)
+    obtain ⟨i2, o2, a2⟩ := ih _ i1 (fun op' hm => hnn op' (List.mem_cons_of_mem _ hm))
+    simp only [htRun, refRun]
+    rw [← a1, ← o1]
+    exact ⟨i2, by rw [o2], a2⟩
+
+/-- every table reachable from `ares_htable_create` by such operations satisfies the invariant; so
+    `num_keys` counts the live keys and `num_collisions` is Σ (len − 1) at all times -/
+theorem ht_reachable_inv (ops : HOps K) (hl : Lawful ops) (l : List (HtOp K V))
+    (hnn : ∀ op ∈ l, ops.isNull op.key = false) :
+    Inv ops (htRun ops (HTable.empty : HTable K V) l).2 :=
+  (ht_run_refines_partial ops hl l _ (ht_empty ops).1 hnn).1
+
+/-- kernel-checked counterexample to the full statement (F30-C19): in a table whose keys are pointers, the
+    NULL key can be inserted, is counted, and is then neither found nor removed -/
+theorem ht_null_key_lost :
+    let ops : HOps Nat := { hash := fun k => k, eq := fun a b => a == b, isNull := fun k => k == 0 }
+    let r := htRun ops (HTable.empty : HTable Nat Nat) [.put 0 7, .get 0, .del 0]
+    r.2.numKeys = 1 ∧ r.1 = [.done true, .found none, .done false] := by
+  decide
+
+/-! ### the hash functions -/
+
+/-- the shift-and-add form used by `ares_htable_hash_FNV1a*` is multiplication by the FNV prime modulo 2^32 -/
+theorem fnv_step_is_mul (hv : Nat) :
+    fnvShiftAdd hv = (hv * 16777619) % 2 ^ 32 := fnvShiftAdd_eq_mul hv
+
+/-- `ares_tolower` never maps a non-NUL byte to NUL (checked over the regenerated table) -/
+theorem tolower_nonzero : ∀ c, c < 256 → 0 < c → tolower c ≠ 0 := by decide +kernel
+
+/-- the case-insensitive tables are lawful where it matters: strings that `ares_strcaseeq` calls equal get
+    the same `ares_htable_hash_FNV1a_casecmp` hash, for every seed -/
+theorem fnv1a_casecmp_respects_caseeq (a b : List Nat) (seed : Nat)
+    (ha : ∀ c ∈ a, 0 < c ∧ c < 256) (hb : ∀ c ∈ b, 0 < c ∧ c < 256) (h : strCaseEq a b = true) :
+    fnv1aCase a seed = fnv1aCase b seed := by
+  unfold fnv1aCase
+  exact fnv1aCase_foldl_congr a b _ (fun c hc => tolower_nonzero c (ha c hc).2 (ha c hc).1)
+    (fun c hc => tolower_nonzero c (hb c hc).2 (hb c hc).1) h
+
+-- non-vacuity: a concrete run that grows the table twice (16 → 32 → 64 buckets) and keeps every key
+example :
+    let ops : HOps Nat := { hash := fun k => k * 16, eq := fun a b => a == b }
+    let puts := (List.range 30).map (fun i => HtOp.put i (i + 100))
+    let t := (htRun ops (HTable.empty : HTable Nat Nat) puts).2
+    t.size = 64 ∧ t.numKeys = 30 ∧ HTable.get ops t 3 = some (3, 103) ∧ t.numCollisions = 26 := by
+  decide +kernel
+
+end HTable
+
+/-! ## Part 3 — `ares_buf`
+
+The model (`Cares.Buf`) follows `ares_buf.c`: allocation contents, `data_len`, `offset`, `tag_offset`, the
+in-place / reclaim / grow ladder of `ares_buf_ensure_space`, the tag operations, `ares_buf_split` driven on
+cursor and tag.  The trivial reference (`Cares.QRef`) is a list of all bytes ever appended plus an absolute
+read position and an absolute tag; it never moves anything.
+-/
+section Buf
+open Cares.Generated Cares.Buf
+
+/-- side condition on the regenerated constant: the first allocation of a buffer is at least two bytes -/
+theorem buf_consts_ok : Buf.ConstsOk := by unfold Buf.ConstsOk; decide
+
+/-- a fresh buffer represents the empty queue -/
+theorem buf_empty_rel : BufRel Buf.empty QRef.empty 0 := by
+  refine ⟨⟨by decide, by decide, fun t h => (by cases h), by decide⟩, rfl, by decide, by decide,
+    fun t h => (by cases h), rfl, rfl, rfl, rfl⟩
+
+/-- one operation (append, consume, fetch, tag, rollback, clear, reclaim, length, tag-fetch, peek) on a buffer
+    that represents a queue answers exactly like the queue and represents the resulting queue; the base of
+    the representation only moves forward, and never past min(tag, read position) (`BufRel.tagOk/basePos`) -/
+theorem buf_step_refines (b : Buf) (q : QRef) (base : Nat) (op : BufOp) (r : BufRel b q base) :
+    (bufStep b op).1 = (qrefStep q op).1 ∧
+      ∃ base', base ≤ base' ∧ BufRel (bufStep b op).2 (qrefStep q op).2 base' :=
+  bufStep_rel buf_consts_ok b q base op r
+
+/-- **C19 (byte buffer)**: for every operation sequence on a fresh buffer every answer equals the byte
+    queue's answer, and the unread bytes are exactly the bytes appended minus those consumed
+    (`stream.drop pos`); tags and rollbacks restore positions because they do so in the reference. -/
+theorem buf_run_refines (ops : List BufOp) (b : Buf) (q : QRef) (base : Nat) (r : BufRel b q base) :
+    (bufRun b ops).1 = (qrefRun q ops).1 ∧
+      (∃ base', BufRel (bufRun b ops).2 (qrefRun q ops).2 base') ∧
+      (bufRun b ops).2.remaining = (qrefRun q ops).2.stream.drop (qrefRun q ops).2.pos := by
+  induction ops generalizing b q base with
+  | nil => exact ⟨rfl, ⟨base, r⟩, r.remaining_eq⟩
+  | cons op rest ih =>
+    obtain ⟨o1, base', _, r1⟩ := buf_step_refines b q base op r
+    obtain ⟨o2, r2, m2⟩ := ih _ _ base' r1
+    simp only [bufRun, qrefRun]
+    exact ⟨by rw [o1, o2], r2, m2⟩
+
+/-- every buffer reachable from `ares_buf_create` satisfies the invariant; in particular a dynamic buffer
+    always has a spare byte behind `data_len`, so the NUL written by `ares_buf_finish_str` is in bounds -/
+theorem buf_reachable_inv (ops : List BufOp) :
+    (bufRun Buf.empty ops).2.Inv ∧
+      ((bufRun Buf.empty ops).2.mem ≠ [] → (bufRun Buf.empty ops).2.dataLen < (bufRun Buf.empty ops).2.mem.length) := by
+  obtain ⟨_, ⟨base', r⟩, _⟩ := buf_run_refines ops Buf.empty QRef.empty 0 buf_empty_rel
+  refine ⟨r.inv, ?_⟩
+  intro hne
+  have := r.inv.room
+  rw [r.dyn] at this
+  simp only [Bool.false_eq_true, ↓reduceIte] at this
+  rcases this with h | h
+  · exact absurd h hne
+  · exact h
+
+/-- **append** (any allocation outcome): on success the unread bytes grow by exactly the appended bytes and the
+    tagged bytes are untouched; on allocation failure both are unchanged -/
+theorem buf_append_queue (b : Buf) (data : List Nat) (o : Oracle) (h : b.Inv) (hc : b.isConst = false)
+    (hd : data ≠ []) :
+    (b.append data o).2.1.Inv ∧
+      (((b.append data o).1 = .ok ∧ (b.append data o).2.1.remaining = b.remaining ++ data) ∨
+       ((b.append data o).1 = .nomem ∧ (b.append data o).2.1.remaining = b.remaining)) ∧
+      (o.AllOk → (b.append data o).1 = .ok) := by
+  obtain ⟨p, i', hpo, hoff, _, _, _, hres, hok⟩ := append_spec buf_consts_ok b data o h hc hd
+  have hl := live_length b h
+  have hoL := h.offLe
+  refine ⟨i', ?_, fun ho => (hok ho).1⟩
+  rcases hres with ⟨hs, hlive⟩ | ⟨hs, hlive⟩
+  · left
+    refine ⟨hs, ?_⟩
+    rw [Buf.remaining_eq, Buf.remaining_eq, hlive, List.drop_append_of_le_length (by rw [List.length_drop]; omega),
+      List.drop_drop]
+    congr 2; omega
+  · right
+    refine ⟨hs, ?_⟩
+    rw [Buf.remaining_eq, Buf.remaining_eq, hlive, List.drop_drop]
+    congr 1; omega
+
+/-- **reclaim** never drops a byte at or after min(tag, offset): it removes a prefix `p ≤ offset`, `p ≤ tag`
+    of the data and shifts offset and tag by `p`; unread and tagged bytes are unchanged -/
+theorem buf_reclaim_preserves (b : Buf) (h : b.Inv) :
+    ∃ p, p ≤ b.off ∧ (∀ t, b.tag = some t → p ≤ t) ∧ b.reclaim.live = b.live.drop p ∧
+      b.reclaim.off + p = b.off ∧ b.reclaim.tag = b.tag.map (· - p) ∧ b.reclaim.Inv ∧
+      b.reclaim.remaining = b.remaining ∧ b.reclaim.tagged = b.tagged := by
+  obtain ⟨p, sh, i', _, hpo, _⟩ := reclaim_spec b h
+  exact ⟨p, hpo, sh.ple, sh.live, sh.off, sh.tag, i', sh.remaining, sh.tagged h i'⟩
+
+/-- **tag / rollback**: after `tag`, consuming any number of available bytes and rolling back restores the read
+    position and the unread bytes; the tag is gone -/
+theorem buf_tag_rollback_restores (b : Buf) (n : Nat) (hn : n ≤ b.len) :
+    (b.doTag.consume n).2.tagRollback = (.ok, { b with tag := none }) ∧
+      ((b.doTag.consume n).2.tagRollback).2.remaining = b.remaining ∧
+      (b.doTag.consume n).2.tagged = b.remaining.take n := by
+  have hc : b.doTag.consume n = (.ok, { b.doTag with off := b.off + n }) := by
+    unfold Buf.consume; rw [if_neg (by show ¬ b.len < n; omega)]; rfl
+  rw [hc]
+  refine ⟨rfl, rfl, ?_⟩
+  unfold Buf.tagged Buf.remaining Buf.doTag
+  simp only
+  apply List.ext_getElem?
+  intro i
+  unfold Buf.len at hn
+  simp only [List.getElem?_drop, List.getElem?_take]
+  by_cases hi : i < n
+  · simp only [hi, ↓reduceIte, show b.off + i < b.off + n by omega, show b.off + i < b.dataLen by omega]
+  · simp only [hi, ↓reduceIte, show ¬ b.off + i < b.off + n by omega]
+
+/-- **back-patching**: shortening the buffer to `p` unread bytes, appending a patch that fits into what was cut
+    off, and restoring the length is an in-place overwrite: no allocation, no compaction, positions unchanged -/
+theorem buf_backpatch_eq_overwrite (b : Buf) (h : b.Inv) (hc : b.isConst = false) (p : Nat) (patch : List Nat)
+    (o : Oracle) (hp : p + patch.length ≤ b.len) (hne : patch ≠ []) :
+    ∃ b1 b2 b3, b.setLength p = (.ok, b1) ∧ b1.append patch o = (.ok, b2, o) ∧ b2.setLength b.len = (.ok, b3) ∧
+      b3.remaining = b.remaining.take p ++ patch ++ b.remaining.drop (p + patch.length) ∧
+      b3.off = b.off ∧ b3.tag = b.tag ∧ b3.dataLen = b.dataLen := by
+  obtain ⟨b1, b2, b3, e1, e2, e3, hr, h1, h2, h3, _, _⟩ := backpatch b h hc p patch o hp hne
+  exact ⟨b1, b2, b3, e1, e2, e3, hr, h1, h2, h3⟩
+
+/-- **split** = the specification split, for every delimiter set, flag combination and section limit: the loop
+    driven on cursor and tag returns `specSplit` of the unread bytes, consumes the whole buffer, and changes
+    nothing but offset and tag -/
+theorem buf_split_refines (b : Buf) (delims : List Nat) (fl : Buf.SplitFlags) (maxSections : Nat) (h : b.Inv)
+    (hd : delims ≠ []) :
+    ∃ b', b.split delims fl maxSections = some (b', specSplit b.remaining delims fl maxSections) ∧
+      b'.len = 0 ∧ b'.mem = b.mem ∧ b'.dataLen = b.dataLen ∧ b'.Inv := by
+  obtain ⟨b', e, s, i', l⟩ := splitLoop_spec delims fl maxSections hd (b.len + 1) b true [] h
+  refine ⟨b', ?_, l (by simp), s.mem, s.dlen, i'⟩
+  unfold Buf.split specSplit
+  have hde : delims.isEmpty = false := by cases delims <;> simp_all
+  rw [hde, remaining_length b h]
+  exact e
+
+/-- `ares_buf_set_length` is documented as having "very few protections": shrinking the data below an active
+    tag (after the offset was moved back with `ares_buf_set_position`) and rolling back leaves the offset behind
+    the end of the data.  Kernel-checked witness that the precondition of `buf_backpatch_eq_overwrite` style
+    uses (tag not beyond the new end) cannot be dropped; recorded as an observation, not as a finding. -/
+theorem buf_setlen_unprotected :
+    let b0 : Buf := { mem := List.replicate 32 0, isConst := false, dataLen := 10, off := 10, tag := none }
+    let b := (((b0.doTag.setPosition 0).2.setLength 0).2.tagRollback).2
+    b0.Inv ∧ ¬ b.off ≤ b.dataLen := by
+  refine ⟨⟨by decide, by decide, fun t h => (by cases h), by decide⟩, by decide⟩
+
+-- non-vacuity: a concrete run with growth, compaction, tag and rollback
+example :
+    let ops := [BufOp.app [1, 2, 3, 4, 5], .fetch 2, .tag, .fetch 2, .app (List.replicate 40 9), .rollback, .fetch 3, .len]
+    (bufRun Buf.empty ops).1 =
+      [.st .ok, .bytes (some [1, 2]), .st .ok, .bytes (some [3, 4]), .st .ok, .st .ok, .bytes (some [3, 4, 5]), .num 40] := by
+  decide +kernel
+
+example :
+    specSplit [97, 44, 44, 32, 98, 32] [44] (Buf.SplitFlags.ofNat 48) 0 = [[97], [98]] := by decide
+
+end Buf
+
+/-! ## Part 4 — `ares_slist`
+
+The model (`Cares.Dsa.SList`) is the level-list algorithm of `ares_slist.c`: one ordered list of node ids per
+level, `left` carried from level to level in push, unlinking per level in pop, the forward/back-off walk of
+find.  Node levels come from coin flips that are an *input*: every theorem below holds for all of them.
+The abstraction is level 0 (`level0`), the sorted-list specification is `specInsert` ("in front of the first
+node whose key is not smaller": a node with an equal key goes before the existing ones, as the C code does).
+-/
+section SList
+open Cares.Generated Cares.Dsa.SList
+
+/-- side condition on the regenerated constant: a new list has at least one level -/
+theorem sl_consts_ok : 1 ≤ SLIST_START_LEVELS := by decide
+
+/-- a new list is empty and satisfies the invariant -/
+theorem sl_empty_inv : Inv SList.empty ∧ SList.empty.level0 = [] := by
+  have hne : List.replicate SLIST_START_LEVELS ([] : List Nat) ≠ [] := by
+    intro h; have := congrArg List.length h; simp at this; have := sl_consts_ok; omega
+  have hl0 : SList.empty.level0 = [] := by
+    unfold level0 SList.empty
+    simp only
+    rw [List.getLast?_replicate]
+    split <;> rfl
+  refine ⟨⟨hne, ?_, ?_, ?_, ?_, ?_, ?_⟩, hl0⟩
+  · rw [hl0]; exact List.Pairwise.nil
+  · rw [hl0]; exact List.nodup_nil
+  · have := subChain_replicate_nil SLIST_START_LEVELS [] trivial
+    simpa [SList.empty] using this
+  · have := levelsOk_replicate_nil (fun _ => 0) SLIST_START_LEVELS [] trivial
+    simpa [SList.empty] using this
+  · rw [hl0]; rfl
+  · rw [hl0]; rfl
+
+/-- **insert**, for all coin flips: the list stays sorted and duplicate free, the new node sits in front of the
+    first node whose key is not smaller, nothing else moves, and the invariant (levels are sub-lists, tail,
+    count) is kept -/
+theorem sl_insert_refines (s : SList) (n k : Nat) (coins : List Bool) (h : Inv s) (hn : n ∉ s.level0) :
+    Inv (s.insert n k coins) ∧ (s.insert n k coins).level0 = specInsert s.key k n s.level0 ∧
+      (s.insert n k coins).key n = k ∧ (∀ x, x ≠ n → (s.insert n k coins).key x = s.key x) :=
+  insert_spec s n k coins h hn
+
+/-- nothing is lost or duplicated by an insert: the new level 0 is a permutation of the old one plus the node -/
+theorem sl_insert_perm (s : SList) (n k : Nat) (coins : List Bool) (h : Inv s) (hn : n ∉ s.level0) :
+    (s.insert n k coins).level0.Perm (n :: s.level0) ∧ Sorted (s.insert n k coins).key (s.insert n k coins).level0 ∧
+      (s.insert n k coins).level0.Nodup := by
+  obtain ⟨i, l, _, _⟩ := insert_spec s n k coins h hn
+  refine ⟨?_, i.sorted, i.nodup⟩
+  rw [l, specInsert_eq]
+  refine List.perm_middle.trans (List.Perm.cons n ?_)
+  rw [List.takeWhile_append_dropWhile]
+
+/-- **remove** (claim / destroy) removes exactly that node -/
+theorem sl_remove_refines (s : SList) (n : Nat) (h : Inv s) (hn : n ∈ s.level0) :
+    Inv (s.remove n) ∧ (s.remove n).level0 = s.level0.erase n ∧ (s.remove n).key = s.key :=
+  remove_spec s n h hn
+
+/-- **find** returns the first node whose key equals the one looked for (none if there is none) -/
+theorem sl_find_first_equal (s : SList) (k : Nat) (h : Inv s) :
+    s.find k = s.level0.find? (fun y => s.key y == k) :=
+  find_spec s k h
+
+/-- **first / last** -/
+theorem sl_first_last (s : SList) (h : Inv s) : s.first = s.level0.head? ∧ s.last = s.level0.getLast? :=
+  ⟨rfl, h.tailOk⟩
+
+/-- **reinsert after a key change** restores the order: the node moves to the sorted position of its new key,
+    all other nodes keep their relative order -/
+theorem sl_reinsert_restores (s : SList) (n k : Nat) (h : Inv s) (hn : n ∈ s.level0) :
+    Inv ((s.setKey n k).reinsert n) ∧
+      ((s.setKey n k).reinsert n).level0 = specInsert s.key k n (s.level0.erase n) ∧
+      ((s.setKey n k).reinsert n).key n = k ∧ ∀ x, x ≠ n → ((s.setKey n k).reinsert n).key x = s.key x := by
+  have hnot : n ∉ s.level0.erase n := h.nodup.not_mem_erase
+  have hagree : ∀ x ∈ s.level0.erase n, (s.setKey n k).key x = s.key x := by
+    intro x hx
+    have : x ≠ n := fun e => hnot (e ▸ hx)
+    simp [setKey, this]
+  have hex : InvExcept (s.setKey n k) n :=
+    ⟨h.nonempty, sorted_congr s.key _ _ (h.sorted.sublist List.erase_sublist) hagree, h.nodup, h.sub, h.lvOk,
+      h.tailOk, h.cntOk⟩
+  obtain ⟨i, l, ky⟩ := reinsert_spec (s.setKey n k) n hex hn
+  refine ⟨i, ?_, ?_, ?_⟩
+  · rw [l]
+    show specInsert (s.setKey n k).key ((s.setKey n k).key n) n (s.level0.erase n) = _
+    have : (s.setKey n k).key n = k := by simp [setKey]
+    rw [this]
+    exact specInsert_congr s.key _ k n _ hagree
+  · rw [ky]; simp [setKey]
+  · intro x hx; rw [ky]; simp [setKey, hx]
+
+/-- **levels**: level i+1 is a sub-list of level i, every level is a sub-list of level 0 and sorted -/
+theorem sl_levels_sublist (s : SList) (h : Inv s) :
+    SubChain s.lv ∧ ∀ l ∈ s.lv, l.Sublist s.level0 ∧ Sorted s.key l ∧ l.Nodup := by
+  refine ⟨h.sub, fun l hl => ?_⟩
+  have hsl := sublist_level0 s.lv h.sub l hl
+  exact ⟨hsl, h.sorted.sublist hsl, h.nodup.sublist hsl⟩
+
+/-! ### every reachable list: operation sequences against the sorted-list reference -/
+
+/-- the trivial reference: the node ids in order and their keys -/
+structure SlRef where
+  items : List Nat
+  key : Nat → Nat
+
+inductive SlOp where
+  | ins (n k : Nat) (coins : List Bool) | rm (n : Nat) | rekey (n k : Nat) | find (k : Nat) | first | last
+
+def slStep (s : SList) : SlOp → Option Nat × SList
+  | .ins n k coins => (none, if n ∈ s.level0 then s else s.insert n k coins)
+  | .rm n => (none, if n ∈ s.level0 then s.remove n else s)
+  | .rekey n k => (none, if n ∈ s.level0 then (s.setKey n k).reinsert n else s)
+  | .find k => (s.find k, s)
+  | .first => (s.first, s)
+  | .last => (s.last, s)
+
+def slRefStep (r : SlRef) : SlOp → Option Nat × SlRef
+  | .ins n k _ => (none, if n ∈ r.items then r
+      else { items := specInsert r.key k n r.items, key := fun x => if x = n then k else r.key x })
+  | .rm n => (none, if n ∈ r.items then { r with items := r.items.erase n } else r)
+  | .rekey n k => (none, if n ∈ r.items then
+      { items := specInsert r.key k n (r.items.erase n), key := fun x => if x = n then k else r.key x } else r)
+  | .find k => (r.items.find? (fun y => r.key y == k), r)
+  | .first => (r.items.head?, r)
+  | .last => (r.items.getLast?, r)
+
+def slRun : SList → List SlOp → List (Option Nat) × SList
+  | s, [] => ([], s)
+  | s, op :: r => ((slStep s op).1 :: (slRun (slStep s op).2 r).1, (slRun (slStep s op).2 r).2)
+
+def slRefRun : SlRef → List SlOp → List (Option Nat) × SlRef
+  | q, [] => ([], q)
+  | q, op :: r => ((slRefStep q op).1 :: (slRefRun (slRefStep q op).2 r).1, (slRefRun (slRefStep q op).2 r).2)
+
+/-- the list stands for the reference: same nodes in the same order, same keys -/
+def SlRel (s : SList) (r : SlRef) : Prop := Inv s ∧ s.level0 = r.items ∧ ∀ x, s.key x = r.key x
+
+theorem sl_step_refines (s : SList) (r : SlRef) (op : SlOp) (h : SlRel s r) :
+    (slStep s op).1 = (slRefStep r op).1 ∧ SlRel (slStep s op).2 (slRefStep r op).2 := by
+  obtain ⟨hi, hl, hk⟩ := h
+  have hkf : s.key = r.key := funext hk
+  cases op with
+  | ins n k coins =>
+    simp only [slStep, slRefStep, ← hl]
+    refine ⟨trivial, ?_⟩
+    by_cases hn : n ∈ s.level0
+    · simp only [hn, ↓reduceIte]; exact ⟨hi, hl, hk⟩
+    · simp only [hn, ↓reduceIte]
+      obtain ⟨i', l', k1, k2⟩ := insert_spec s n k coins hi hn
+      refine ⟨i', by rw [l', hkf], ?_⟩
+      intro x
+      by_cases hx : x = n
+      · subst hx; simp [k1]
+      · simp only [hx, ↓reduceIte]; rw [k2 x hx, hk]
+  | rm n =>
+    simp only [slStep, slRefStep, ← hl]
+    refine ⟨trivial, ?_⟩
+    by_cases hn : n ∈ s.level0
+    · simp only [hn, ↓reduceIte]
+      obtain ⟨i', l', k'⟩ := remove_spec s n hi hn
+      exact ⟨i', l', fun x => by rw [k', hk]⟩
+    · simp only [hn, ↓reduceIte]; exact ⟨hi, hl, hk⟩
+  | rekey n k =>
+    simp only [slStep, slRefStep, ← hl]
+    refine ⟨trivial, ?_⟩
+    by_cases hn : n ∈ s.level0
+    · simp only [hn, ↓reduceIte]
+      obtain ⟨i', l', k1, k2⟩ := sl_reinsert_restores s n k hi hn
+      refine ⟨i', by rw [l', hkf], ?_⟩
+      intro x
+      by_cases hx : x = n
+      · subst hx; simp [k1]
+      · simp only [hx, ↓reduceIte]; rw [k2 x hx, hk]
+    · simp only [hn, ↓reduceIte]; exact ⟨hi, hl, hk⟩
+  | find k =>
+    simp only [slStep, slRefStep]
+    exact ⟨by rw [find_spec s k hi, hl, hkf], hi, hl, hk⟩
+  | first =>
+    simp only [slStep, slRefStep]
+    exact ⟨by rw [← hl]; rfl, hi, hl, hk⟩
+  | last =>
+    simp only [slStep, slRefStep]
+    exact ⟨by rw [← hl]; exact hi.tailOk, hi, hl, hk⟩
+
+/-- **C19 (ordered list)**: under any sequence of insert / remove / change-key-and-reinsert / find / first / last,
+    with any coin flips, the skip list answers like the sorted-list reference and holds the same nodes in the
+    same order; in particular it stays sorted and loses or duplicates nothing. -/
+theorem sl_run_refines (ops : List SlOp) (s : SList) (r : SlRef) (h : SlRel s r) :
+    (slRun s ops).1 = (slRefRun r ops).1 ∧ SlRel (slRun s ops).2 (slRefRun r ops).2 := by
+  induction ops generalizing s r with
+  | nil => exact ⟨rfl, h⟩
+  | cons op rest ih =>
+    obtain ⟨o1, r1⟩ := sl_step_refines s r op h
+    obtain ⟨o2, r2⟩ := ih _ _ r1
+    simp only [slRun, slRefRun]
+    exact ⟨by rw [o1, o2], r2⟩
+
+/-- every list reachable from `ares_slist_create` is sorted, duplicate free, has its levels nested, its tail
+    pointing at the last node and its counter equal to the number of nodes -/
+theorem sl_reachable_inv (ops : List SlOp) : Inv (slRun SList.empty ops).2 :=
+  (sl_run_refines ops SList.empty { items := [], key := SList.empty.key } ⟨sl_empty_inv.1, sl_empty_inv.2, fun _ => rfl⟩).2.1
+
+-- non-vacuity: equal keys go in front; tall and flat towers give the same order
+example :
+    let ops := [SlOp.ins 1 5 [true, true, true], .ins 2 5 [], .ins 3 2 [true], .ins 4 9 [true, true, true, true, true],
+                .rekey 3 7, .find 5, .rm 2, .find 5, .last]
+    (slRun SList.empty ops).1 = [none, none, none, none, none, some 2, none, some 1, some 4] ∧
+      (slRun SList.empty ops).2.level0 = [1, 3, 4] := by
+  decide +kernel
+
+end SList
 
 end Cares.C19
